@@ -14,6 +14,7 @@ import (
 	"github.com/lyraproj/pcore/hash"
 	"github.com/lyraproj/pcore/px"
 	"github.com/lyraproj/pcore/utils"
+	"github.com/lyraproj/pcore/verifhook"
 )
 
 type (
@@ -1376,6 +1377,7 @@ func (hv *Hash) privateDetailedType() px.Type {
 			return hv.detailedType
 		}
 		hv.detailedType = NewStructType(structEntries)
+		verifhook.Point("hash.detailed.published")
 
 		for _, entry := range hv.entries {
 			if sv, ok := entry.key.(stringValue); !ok || len(string(sv)) == 0 {
@@ -1409,6 +1411,7 @@ func (hv *Hash) privateReducedType() px.Type {
 			sz := int64(top)
 			ht := NewHashType(DefaultAnyType(), DefaultAnyType(), NewIntegerType(sz, sz))
 			hv.reducedType = ht
+			verifhook.Point("hash.reduced.published")
 			firstEntry := hv.entries[0]
 			commonKeyType := firstEntry.key.PType()
 			commonValueType := firstEntry.value.PType()
